@@ -54,137 +54,165 @@ impl rand::TryRng for Words {
 }
 
 type Sampler = Arc<dyn Fn(&mut Words) -> u64 + Send + Sync>;
+/// builds the value (constructors run wherever the factory is called: in the main thread for
+/// the sequential reference, and -- in half of the scenarios -- inside the sampling threads,
+/// so that concurrent *construction* of equal or related values is scheduled as well)
+type Factory = Arc<dyn Fn() -> Sampler + Send + Sync>;
 
-fn f(d: impl Distribution<f64> + Send + Sync + 'static) -> Sampler {
-    Arc::new(move |r| d.sample(r).to_bits())
+fn f<D: Distribution<f64> + Send + Sync + 'static>(mk: impl Fn() -> D + Send + Sync + 'static) -> Factory {
+    Arc::new(move || {
+        let d = mk();
+        Arc::new(move |r: &mut Words| d.sample(r).to_bits()) as Sampler
+    })
 }
-fn f32s(d: impl Distribution<f32> + Send + Sync + 'static) -> Sampler {
-    Arc::new(move |r| d.sample(r).to_bits() as u64)
+fn f32s<D: Distribution<f32> + Send + Sync + 'static>(mk: impl Fn() -> D + Send + Sync + 'static) -> Factory {
+    Arc::new(move || {
+        let d = mk();
+        Arc::new(move |r: &mut Words| d.sample(r).to_bits() as u64) as Sampler
+    })
 }
-fn u(d: impl Distribution<u64> + Send + Sync + 'static) -> Sampler {
-    Arc::new(move |r| d.sample(r))
+fn u<D: Distribution<u64> + Send + Sync + 'static>(mk: impl Fn() -> D + Send + Sync + 'static) -> Factory {
+    Arc::new(move || {
+        let d = mk();
+        Arc::new(move |r: &mut Words| d.sample(r)) as Sampler
+    })
+}
+fn g(mk: impl Fn() -> Sampler + Send + Sync + 'static) -> Factory {
+    Arc::new(mk)
 }
 
 /// Families in groups of *related* values (agreeing in one parameter or a derived constant):
 /// a cache keyed on part of the parameters, or torn between two writers, needs such pairs.
-fn group(g: u64) -> (&'static str, Vec<Sampler>) {
-    match g {
+fn group(gi: u64) -> (&'static str, Vec<Factory>) {
+    match gi {
         0 => (
             "Binomial (BTPE, equal mode / equal n)",
             vec![
-                u(Binomial::new(2000, 0.5).unwrap()),
-                u(Binomial::new(10_000_000_000, 1e-7).unwrap()),
-                u(Binomial::new(50, 0.4).unwrap()),
-                u(Binomial::new(2000, 0.3).unwrap()),
-                u(Binomial::new(3000, 0.5).unwrap()),
+                u(|| Binomial::new(2000, 0.5).unwrap()),
+                u(|| Binomial::new(10_000_000_000, 1e-7).unwrap()),
+                u(|| Binomial::new(50, 0.4).unwrap()),
+                u(|| Binomial::new(2000, 0.3).unwrap()),
+                u(|| Binomial::new(3000, 0.5).unwrap()),
             ],
         ),
         1 => (
             "Hypergeometric (H2PE)",
             vec![
-                u(Hypergeometric::new(5000, 2500, 500).unwrap()),
-                u(Hypergeometric::new(5000, 2500, 468).unwrap()),
-                u(Hypergeometric::new(100_000, 50_000, 1000).unwrap()),
+                u(|| Hypergeometric::new(5000, 2500, 500).unwrap()),
+                u(|| Hypergeometric::new(5000, 2500, 468).unwrap()),
+                u(|| Hypergeometric::new(100_000, 50_000, 1000).unwrap()),
             ],
         ),
         2 => (
             "Poisson (rejection / Knuth)",
-            vec![f(Poisson::new(50.0).unwrap()), f(Poisson::new(200.0).unwrap()), f(Poisson::new(50.5).unwrap()), f(Poisson::new(5.0).unwrap())],
+            vec![f(|| Poisson::new(50.0).unwrap()), f(|| Poisson::new(200.0).unwrap()), f(|| Poisson::new(50.5).unwrap()), f(|| Poisson::new(5.0).unwrap())],
         ),
         3 => (
             "Gamma / ChiSquared / StudentT",
             vec![
-                f(Gamma::new(2.5, 1.0).unwrap()),
-                f(Gamma::new(2.5, 3.0).unwrap()),
-                f(Gamma::new(0.4, 1.0).unwrap()),
-                f(ChiSquared::new(5.0).unwrap()),
-                f(StudentT::new(5.0).unwrap()),
+                f(|| Gamma::new(2.5, 1.0).unwrap()),
+                f(|| Gamma::new(2.5, 3.0).unwrap()),
+                f(|| Gamma::new(0.4, 1.0).unwrap()),
+                f(|| ChiSquared::new(5.0).unwrap()),
+                f(|| StudentT::new(5.0).unwrap()),
             ],
         ),
         4 => (
             "Beta / Pert",
             vec![
-                f(Beta::new(2.0, 3.0).unwrap()),
-                f(Beta::new(3.0, 2.0).unwrap()),
-                f(Beta::new(0.5, 0.5).unwrap()),
-                f(Pert::new(0.0, 10.0).with_mode(3.0).unwrap()),
+                f(|| Beta::new(2.0, 3.0).unwrap()),
+                f(|| Beta::new(3.0, 2.0).unwrap()),
+                f(|| Beta::new(0.5, 0.5).unwrap()),
+                f(|| Pert::new(0.0, 10.0).with_mode(3.0).unwrap()),
             ],
         ),
         5 => (
             "SkewNormal / Normal in both scalar types",
             vec![
-                f(SkewNormal::new(0.0, 1.0, 2.0).unwrap()),
-                f32s(SkewNormal::<f32>::new(0.0, 1.0, 2.0).unwrap()),
-                f(Normal::new(1.0, 2.0).unwrap()),
-                f32s(Normal::<f32>::new(1.0, 2.0).unwrap()),
-                f(LogNormal::new(0.0, 0.5).unwrap()),
+                f(|| SkewNormal::new(0.0, 1.0, 2.0).unwrap()),
+                f32s(|| SkewNormal::<f32>::new(0.0, 1.0, 2.0).unwrap()),
+                f(|| Normal::new(1.0, 2.0).unwrap()),
+                f32s(|| Normal::<f32>::new(1.0, 2.0).unwrap()),
+                f(|| LogNormal::new(0.0, 0.5).unwrap()),
             ],
         ),
         6 => (
             "Zipf / Zeta / Geometric",
             vec![
-                f(Zipf::new(100.0, 1.5).unwrap()),
-                f(Zipf::new(1000.0, 1.5).unwrap()),
-                f(Zeta::new(2.5).unwrap()),
-                u(Geometric::new(0.01).unwrap()),
-                u(Geometric::new(1e-10).unwrap()),
+                f(|| Zipf::new(100.0, 1.5).unwrap()),
+                f(|| Zipf::new(1000.0, 1.5).unwrap()),
+                f(|| Zeta::new(2.5).unwrap()),
+                u(|| Geometric::new(0.01).unwrap()),
+                u(|| Geometric::new(1e-10).unwrap()),
             ],
         ),
         7 => (
             "weighted indices",
             vec![
-                {
+                g(|| {
                     let d = WeightedAliasIndex::new(vec![1u32, 5, 3, 0, 7]).unwrap();
                     Arc::new(move |r: &mut Words| d.sample(r) as u64) as Sampler
-                },
-                {
+                }),
+                g(|| {
                     let d = WeightedAliasIndex::new(vec![0.5f64, 1.5, 0.25]).unwrap();
                     Arc::new(move |r: &mut Words| d.sample(r) as u64) as Sampler
-                },
-                {
+                }),
+                g(|| {
                     let d = WeightedTreeIndex::new(vec![1u32, 5, 3, 0, 7]).unwrap();
                     Arc::new(move |r: &mut Words| d.sample(r) as u64) as Sampler
-                },
+                }),
             ],
         ),
         8 => (
             "Dirichlet (both methods)",
             vec![
-                {
+                g(|| {
                     let d = Dirichlet::new(&[0.05f64, 0.1, 0.02]).unwrap();
                     Arc::new(move |r: &mut Words| {
                         let mut b = [0f64; 3];
                         d.sample_to_slice(r, &mut b);
                         b.iter().fold(0u64, |a, x| a.rotate_left(21) ^ x.to_bits())
                     }) as Sampler
-                },
-                {
+                }),
+                g(|| {
                     let d = Dirichlet::new(&[1.5f64, 0.7, 2.0]).unwrap();
                     Arc::new(move |r: &mut Words| {
                         let mut b = [0f64; 3];
                         d.sample_to_slice(r, &mut b);
                         b.iter().fold(0u64, |a, x| a.rotate_left(21) ^ x.to_bits())
                     }) as Sampler
-                },
+                }),
+            ],
+        ),
+        9 => (
+            // inverse-transform regime (mode < 10): the constructor runs an O(n) set-up loop,
+            // a long window for concurrent constructions of equal or mirror-image values
+            "Hypergeometric (inverse transform, set-up loop)",
+            vec![
+                u(|| Hypergeometric::new(40_000, 10, 2000).unwrap()),
+                u(|| Hypergeometric::new(40_000, 12, 1500).unwrap()),
+                u(|| Hypergeometric::new(40_000, 39_990, 2000).unwrap()),
             ],
         ),
         _ => (
             "InverseGaussian / Frechet / Weibull / Triangular / geometry",
             vec![
-                f(InverseGaussian::new(1.0, 2.0).unwrap()),
-                f(NormalInverseGaussian::new(2.0, 1.0).unwrap()),
-                f(Frechet::new(0.0, 1.0, 2.0).unwrap()),
-                f(Weibull::new(1.0, 2.0).unwrap()),
-                f(Triangular::new(0.0, 1.0, 0.3).unwrap()),
-                Arc::new(|r: &mut Words| {
-                    let v: [f64; 3] = UnitSphere.sample(r);
-                    v.iter().fold(0u64, |a, x| a.rotate_left(21) ^ x.to_bits())
-                }) as Sampler,
+                f(|| InverseGaussian::new(1.0, 2.0).unwrap()),
+                f(|| NormalInverseGaussian::new(2.0, 1.0).unwrap()),
+                f(|| Frechet::new(0.0, 1.0, 2.0).unwrap()),
+                f(|| Weibull::new(1.0, 2.0).unwrap()),
+                f(|| Triangular::new(0.0, 1.0, 0.3).unwrap()),
+                g(|| {
+                    Arc::new(|r: &mut Words| {
+                        let v: [f64; 3] = UnitSphere.sample(r);
+                        v.iter().fold(0u64, |a, x| a.rotate_left(21) ^ x.to_bits())
+                    }) as Sampler
+                }),
             ],
         ),
     }
 }
-const GROUPS: u64 = 10;
+const GROUPS: u64 = 11;
 
 fn main() {
     let args: Vec<String> = std::env::args().collect();
@@ -198,31 +226,49 @@ fn main() {
     if plan.below(3) == 0 {
         picks[1] = picks[0];
     }
+    // one scenario in four: every thread works on the same member (equal parameters)
+    if plan.below(4) == 0 {
+        for i in 1..t {
+            picks[i] = picks[0];
+        }
+    }
     let seeds: Vec<u64> = (0..t).map(|_| plan.next()).collect();
-    // what each thread must see: the same value on the same stream, alone
+    let construct_in_threads = plan.below(2) == 0;
+    // what each thread must see: the same value (built here, sequentially) on the same stream, alone
+    let built: Vec<Sampler> = (0..members.len()).map(|i| (members[i])()).collect();
     let expect: Vec<Vec<u64>> = (0..t)
         .map(|i| {
             let mut r = Words(seeds[i]);
-            (0..calls).map(|_| (members[picks[i]])(&mut r)).collect()
+            (0..calls).map(|_| (built[picks[i]])(&mut r)).collect()
         })
         .collect();
     // guard against an interpreter that perturbs floating-point results (Miri does unless
     // -Zmiri-deterministic-floats is given): the sequential reference must reproduce itself
     for i in 0..t {
+        let fresh = (members[picks[i]])();
         let mut r = Words(seeds[i]);
         for k in 0..calls {
-            if (members[picks[i]])(&mut r) != expect[i][k] {
+            if fresh(&mut r) != expect[i][k] {
                 println!("THREADS-HARNESS scenario={scenario}: the sequential reference is not reproducible (non-deterministic floating point in the interpreter?)");
                 std::process::exit(3);
             }
         }
     }
+    // leave any process-wide cache keyed on the parameters pointing at a DIFFERENT member than
+    // the ones the threads are about to build (the reference runs above have just primed it
+    // with exactly their keys, which would hide a memo that is published before it is filled)
+    let decoy = (members[(picks[0] + 1) % members.len()])();
+    let _ = decoy(&mut Words(scenario ^ 0xDEC0));
     // the interleaving
     let handles: Vec<_> = (0..t)
         .map(|i| {
-            let s = members[picks[i]].clone();
+            let shared = built[picks[i]].clone();
+            let factory = members[picks[i]].clone();
             let seed = seeds[i];
             std::thread::spawn(move || {
+                // construct here (concurrently with the other threads' constructors and
+                // samplers) or use the value built by the main thread
+                let s = if construct_in_threads { factory() } else { shared };
                 let mut r = Words(seed);
                 (0..calls).map(|_| s(&mut r)).collect::<Vec<u64>>()
             })
@@ -242,5 +288,5 @@ fn main() {
             }
         }
     }
-    println!("THREADS-OK scenario={scenario} group=\"{gname}\" threads={t} members={picks:?} calls_per_thread={calls} digest={digest:016x}");
+    println!("THREADS-OK scenario={scenario} group=\"{gname}\" threads={t} members={picks:?} constructed_in_threads={construct_in_threads} calls_per_thread={calls} digest={digest:016x}");
 }
